@@ -91,6 +91,10 @@ macro_rules! poll_impl {
                             panic!("poll spins");
                         }
                         drop(fut);
+                        if rd.drop_requested {
+                            rd.drop_requested = false;
+                            state = state.clone(); // (a caller may continue from a copy of the state)
+                        }
                         continue 'outer;
                     }
                 }
